@@ -69,7 +69,7 @@ def run(ctx):
                        'of Domain arguments, order-preserving filters, None-tests. Exhaustive over both files.')
     ctx.rule_text = 'one obligation per field store, per Dataset/Domain construction, per histogram argument, per filter, per None-test'
     ctx.trusted = ['pandas by-name column selection, numpy.histogramdd']
-    methods = repo.methods(DS, 'Dataset')
+    methods = repo.nmethods(DS, 'Dataset')
     for need in ('__init__', 'project', 'drop', 'datavector'):
         if need not in methods:
             raise AnalysisError('anchor vanished: Dataset.%s' % need)
@@ -227,7 +227,7 @@ def is_order_filter(e, dom, param, negate):
 
 def check_domain(ctx):
     repo = ctx.repo
-    methods = repo.methods(DOM, 'Domain')
+    methods = repo.nmethods(DOM, 'Domain')
     for need in ('__init__', 'project', 'marginalize', 'merge', 'invert', 'canonical', 'size', 'axes', 'fromdict'):
         if need not in methods:
             raise AnalysisError('anchor vanished: Domain.%s' % need)
@@ -289,7 +289,7 @@ def parallel(A, S):
 
 def none_tests(ctx, rel, clsname):
     """parameters defaulting to None must be tested by comparison with None, not by truthiness"""
-    for name, fi in ctx.repo.methods(rel, clsname).items():
+    for name, fi in ctx.repo.nmethods(rel, clsname).items():
         nones = [p for p, d in fi.defaults().items() if isinstance(d, ast.Constant) and d.value is None]
         for p in nones:
             for n in walk_shallow(fi.node):
